@@ -33,6 +33,8 @@ type pbLayer struct {
 	block   int  // > 0: holds a non-object at the prefix of that many segments
 	blockV  interface{}
 	blockAs string
+	empty   string // env: "nil" = Env(nil), "zero" = Env(&ucfg.Config{}): holds nothing
+	ownErr  bool   // resolver: unknown names are answered with an error of its own, not ErrMissing
 }
 
 type pbCase struct {
@@ -58,6 +60,13 @@ func genPathBlock(r *rand.Rand) *pbCase {
 		c.layers = append(c.layers, &pbLayer{kind: "res", label: fmt.Sprintf("res%d", i)})
 	}
 	for _, l := range c.layers {
+		l.ownErr = l.kind == "res" && r.Intn(2) == 0
+		if l.kind == "env" && r.Intn(4) == 0 {
+			// an Env configuration without settings: nil (an optional environment
+			// that was not loaded) or the zero Config
+			l.empty = []string{"nil", "zero"}[r.Intn(2)]
+			continue
+		}
 		switch k := r.Intn(6); {
 		case k < 2:
 			l.defines = true
@@ -107,6 +116,12 @@ func (c *pbCase) describe() string {
 	var parts []string
 	for _, l := range c.layers {
 		s := l.label + "{"
+		if l.empty != "" {
+			s = l.label + "(" + l.empty + " Config){"
+		}
+		if l.ownErr {
+			s = l.label + "(own error for unknown names){"
+		}
 		if l.defines {
 			s += c.name + "=" + l.label + "V"
 		}
@@ -140,8 +155,14 @@ func runPathBlock(res *harness.R, r *rand.Rand, idx int, verbose bool) {
 				continue
 			}
 			var e *ucfg.Config
-			if e, err = ucfg.NewFrom(l.data(c), vx.BaseOpts...); err != nil {
-				return
+			switch l.empty {
+			case "nil":
+			case "zero":
+				e = &ucfg.Config{}
+			default:
+				if e, err = ucfg.NewFrom(l.data(c), vx.BaseOpts...); err != nil {
+					return
+				}
 			}
 			opts = append(opts, ucfg.Env(e))
 		}
@@ -164,6 +185,9 @@ func runPathBlock(res *harness.R, r *rand.Rand, idx int, verbose bool) {
 			if l.defines && n == c.name {
 				return l.label + "V", parse.NoopConfig, nil
 			}
+			if l.ownErr {
+				return "", parse.NoopConfig, fmt.Errorf("%s has no variable %q", l.label, n)
+			}
 			return "", parse.NoopConfig, ucfg.ErrMissing
 		}))
 	}
@@ -171,10 +195,14 @@ func runPathBlock(res *harness.R, r *rand.Rand, idx int, verbose bool) {
 	// the statement: the first layer in lookup order that holds the name
 	var found *pbLayer
 	blockedBefore := ""
+	nilBefore := false
 	for _, l := range c.layers {
 		if l.defines {
 			found = l
 			break
+		}
+		if l.empty == "nil" {
+			nilBefore = true
 		}
 		if l.block > 0 && blockedBefore == "" {
 			blockedBefore = l.kind
@@ -213,8 +241,13 @@ func runPathBlock(res *harness.R, r *rand.Rand, idx int, verbose bool) {
 		res.Ev("lookup_cases_with_a_non_object_on_the_path_in_an_earlier_layer", 1)
 		res.SetAdd("lookup_non_object_before_defining_layer", fmt.Sprintf("%s-before-%s/%dseg/%s", blockedBefore, found.kind, len(c.segs), c.op))
 	}
+	if nilBefore && found != nil {
+		res.Ev("lookup_cases_with_a_nil_env_before_the_defining_layer", 1)
+	}
 	sig := func() string {
 		switch {
+		case nilBefore && found != nil:
+			return "nil-env-hides-later-layers"
 		case blockedBefore != "" && found != nil && found.kind == "res":
 			return "non-object-on-reference-path-blocks-resolvers"
 		case blockedBefore != "" && found != nil && found.kind == "env":
@@ -296,6 +329,81 @@ func runPathBlock(res *harness.R, r *rand.Rand, idx int, verbose bool) {
 	// (2) a name whose value is null
 	if idx%4 == 0 {
 		nullProbe(res, r)
+	}
+	if idx%4 == 1 {
+		emptyAnswer(res, r)
+	}
+}
+
+// emptyAnswer: the most recently added resolver answers the name with the
+// empty string and no error (an older one may know a value). Whether that
+// counts as "set and empty" or as "not found here" is not said by the
+// statement, but it must be the same thing in every form: what the lone
+// reference ${n} reads decides what the text p${n}q and the operators yield.
+func emptyAnswer(res *harness.R, r *rand.Rand) {
+	name := []string{"x", "a.b"}[r.Intn(2)]
+	k := r.Intn(3)
+	pc := []parse.Config{parse.NoopConfig, parse.EnvConfig, parse.DefaultConfig}[k]
+	older := r.Intn(2) == 0
+	data := map[string]interface{}{
+		"lone": "${" + name + "}", "splice": "p${" + name + "}q", "alt": "${" + name + ":+a}",
+		"def": "${" + name + ":dflt}", "err": "${" + name + ":?m}",
+	}
+	desc := fmt.Sprintf("empty answer: config%v, newest resolver answers %q with \"\" and no error (parse config %d), older resolver knowing \"older\": %v", data, name, k, older)
+	opts := append([]ucfg.Option{}, vx.BaseOpts...)
+	if older {
+		opts = append(opts, ucfg.Resolve(func(n string) (string, parse.Config, error) {
+			if n == name {
+				return "older", pc, nil
+			}
+			return "", pc, ucfg.ErrMissing
+		}))
+	}
+	opts = append(opts, ucfg.Resolve(func(n string) (string, parse.Config, error) {
+		if n == name {
+			return "", pc, nil
+		}
+		return "", pc, ucfg.ErrMissing
+	}))
+	out := map[string]string{}
+	errs := map[string]error{}
+	if p, pv, where := harness.Safe(func() {
+		cfg, err := ucfg.NewFrom(data, vx.BaseOpts...)
+		if err != nil {
+			errs["build"] = err
+			return
+		}
+		for k := range data {
+			out[k], errs[k] = cfg.String(k, -1, opts...)
+		}
+	}); p {
+		res.Violate("panic", "panic %q at %s; %s", pv, where, desc)
+		return
+	}
+	res.Eval(6)
+	if errs["build"] != nil {
+		res.Violate("build-error", "%v; %s", errs["build"], desc)
+		return
+	}
+	res.Ev("empty_resolver_answer_probes", 1)
+	set, val := errs["lone"] == nil, out["lone"]
+	res.SetAdd("empty_resolver_answer_lone_reference", fmt.Sprintf("resolved=%v value=%q older=%v", set, val, older))
+	want := map[string]string{"splice": "p" + val + "q", "alt": "a", "def": val, "err": val}
+	wantErr := map[string]bool{}
+	if !set {
+		want["alt"] = ""
+		wantErr["splice"] = true
+	}
+	if !set || val == "" {
+		want["def"] = "dflt"
+		wantErr["err"] = true
+	}
+	for _, k := range []string{"splice", "alt", "def", "err"} {
+		if wantErr[k] != (errs[k] != nil) || (!wantErr[k] && out[k] != want[k]) {
+			res.Violate("empty-resolver-answer-counts-as-set-in-the-lone-reference-but-not-in-"+map[string]string{"splice": "a-text", "alt": "the-alternative-operator", "def": "the-default-operator", "err": "the-error-operator"}[k],
+				"the lone reference reads %q, %v but %q reads %q, %v (expected %q, error=%v); %s", val, errs["lone"], data[k], out[k], errs[k], want[k], wantErr[k], desc)
+			return
+		}
 	}
 }
 
